@@ -16,6 +16,7 @@ import (
 	channeltypes "github.com/cosmos/ibc-go/v10/modules/core/04-channel/types"
 	commitmenttypes "github.com/cosmos/ibc-go/v10/modules/core/23-commitment/types"
 	host "github.com/cosmos/ibc-go/v10/modules/core/24-host"
+	ibcexported "github.com/cosmos/ibc-go/v10/modules/core/exported"
 	ibctesting "github.com/cosmos/ibc-go/v10/testing"
 
 	"cosmossdk.io/math"
@@ -476,6 +477,12 @@ func (w *World) relay(p *Path, a *Action, idx int) error {
 	pClient, cClient := w.clientIDs(p)
 	if pClient == "" || cClient == "" {
 		return fmt.Errorf("clients unknown")
+	}
+	if st := P.App.GetIBCKeeper().ClientKeeper.GetClientStatus(P.Ctx(), pClient); st != ibcexported.Active {
+		return fmt.Errorf("provider-side client is %s", st)
+	}
+	if st := C.App.GetIBCKeeper().ClientKeeper.GetClientStatus(C.Ctx(), cClient); st != ibcexported.Active && op != "timeout" {
+		return fmt.Errorf("consumer-side client is %s", st)
 	}
 	name := fmt.Sprintf("%d:relay:%s", idx, op)
 	switch op {
